@@ -362,7 +362,7 @@ def nontrivial(c):
     return len(c["t"]) >= 6
 
 
-def fast_evaluate(prop, imports, fam, to_coq, cases, what=("check", "oracle"), tag="cases", shard=2500):
+def fast_evaluate(prop, imports, fam, to_coq, cases, what=("check", "oracle"), tag="cases", shard=None):
     """Same contract as checklib.evaluate, but check and oracle are evaluated in one coqc run per shard and the
     shards are larger: for this property the cost is coqc start-up and reading the case terms, not vm_compute
     (31 000 exhaustive texts per run)."""
@@ -388,6 +388,8 @@ def fast_evaluate(prop, imports, fam, to_coq, cases, what=("check", "oracle"), t
         if f.startswith(tag + "_both"):
             os.unlink(os.path.join(d, f))
     files = []
+    if shard is None:       # two waves of coqc processes
+        shard = max(200, -(-len(terms) // (2 * vlib.NPROC)))
     for si, start in enumerate(range(0, len(terms), shard)):
         path = os.path.join(d, "%s_both_%04d.v" % (tag, si))
         with open(path, "w") as f:
@@ -395,12 +397,14 @@ def fast_evaluate(prop, imports, fam, to_coq, cases, what=("check", "oracle"), t
             f.write("Definition the_cases := [\n  %s\n].\n" % ";\n  ".join(terms[start:start + shard]))
             for w in what:
                 f.write("Eval vm_compute in (mismatches %s the_cases).\n" % w)
+            # deliberately ill-typed last line: coqc stops here and does not spend seconds writing a .vo
+            f.write("Check (done_marker_C20 : nat).\n")
         files.append((start, path))
     res = {w: [] for w in what}
     err = None
     with cf.ThreadPoolExecutor(max_workers=vlib.NPROC) as ex:
         for (start, path), (rc, out) in zip(files, ex.map(lambda sp: vlib._coqc(sp[1], 900), files)):
-            if rc != 0:
+            if "done_marker_C20" not in out:
                 err = "coqc failed on %s (rc=%s): %s" % (path, rc, out[-1500:])
                 continue
             ms = re.findall(r"=\s*(.*?)\s*:\s*list N", out, re.S)
